@@ -17,7 +17,8 @@
 (*         its rate)                                                       *)
 (*   sfl   "none" "val" "val!" "zero" "zero!"  (sales only)                *)
 (*   ratio "2-for-1" "10-for-1" "1-for-2" "1.0-for-2.0" "3.5-for-2"          *)
-(*         "1.25-for-2.5" "0.125-for-1" (splits only):                     *)
+(*         "1.25-for-2.5" "0.125-for-1" "3-for-1.5" "1-for-2.25" (splits   *)
+(*         only):                                                          *)
 (*         whole-number reverse splits come in two forms - results must    *)
 (*         stay whole, or fractions allowed - and the form must survive    *)
 (*   dec   class of the decimal values of the row                          *)
@@ -29,7 +30,7 @@ CONSTANTS Acts, Afs, DecClasses, MemoClasses, MaxTxs
 
 TxSpace ==
   { t \in [act : Acts, af : Afs, cur : {"CAD", "USD", "EUR"}, ccur : {"none", "CAD", "USD"},
-           sfl : {"none", "val", "val!", "zero", "zero!"}, ratio : {"none", "2-for-1", "1-for-2", "1.0-for-2.0", "3.5-for-2", "1.25-for-2.5", "0.125-for-1", "10-for-1"},
+           sfl : {"none", "val", "val!", "zero", "zero!"}, ratio : {"none", "2-for-1", "1-for-2", "1.0-for-2.0", "3.5-for-2", "1.25-for-2.5", "0.125-for-1", "10-for-1", "3-for-1.5", "1-for-2.25"},
            dec : DecClasses, memo : MemoClasses] :
       /\ (t.af = "global" => t.act = "Split")
       /\ (t.act = "Split") = (t.ratio # "none")
